@@ -63,6 +63,7 @@ pub fn c10(r: &mut Rng, sz: &Sizes, out: &mut Vec<String>) {
         out.push(format!("asopt\t{}", sx(s)));
         out.push(format!("asnonopt\t{}", sx(s)));
         out.push(format!("isopt\t{}", sx(s)));
+        out.push(format!("kinds\t{}", sx(s)));
         out.push(format!("keys\t{}", sx(s)));
     }
     for (a, b) in pairs(r, sz) {
